@@ -67,6 +67,7 @@ class Replay:
         self.ids: dict[int, int] = {}        # id(python object) -> spec id
         self.touch_views_first = touch_views_first
         self.steps_done = 0
+        self.drift = 0
 
     # ------------------------------------------------------------------
     def add(self, step: int, kind: str, msg: str) -> None:
@@ -94,13 +95,22 @@ class Replay:
         for (sid, _, _), obj in zip(init['raw'], raw):
             self._register(sid, obj)
         # a second document whose nodes are attached elsewhere (C19 donors)
-        self.other = None
+        self.others: dict[str, Any] = {}
 
-    def other_item(self) -> Any:
-        if self.other is None:
-            items = [(t, 1, None) for t in (self.host.init_types or self.host.types)]
-            self.other = tree.parse(self.host.doc_text(items, 0))
-        p = self.host.locate(self.other)
+    def other_item(self, which: str = 'other') -> Any:
+        """A node attached in ANOTHER document.  'other': first item of a short list;
+        'otherdup': first item of a list of two equal-looking items in a document that does not
+        end with a newline (its first/last tokens look like the store's first/last tokens)."""
+        if which not in self.others:
+            tys = (self.host.init_types or self.host.types)
+            if which == 'other':
+                items = [(t, 1, None) for t in tys]
+                text = self.host.doc_text(items, 0)
+            else:
+                items = [(tys[0], 1, None), (tys[0], 1, None)]
+                text = self.host.doc_text(items, 0).rstrip('\n')
+            self.others[which] = tree.parse(text)
+        p = self.host.locate(self.others[which])
         return list(self.host.view(p, self.raw_name))[0]
 
     # ------------------------------------------------------------------
@@ -189,7 +199,7 @@ class Replay:
         if src == 'same':
             batch[j - 1] = list(view)[0]
         else:
-            batch[j - 1] = self.other_item()
+            batch[j - 1] = self.other_item(src)
         if op == 'append':
             view.append(batch[0])
         elif op == 'insert':
@@ -290,14 +300,33 @@ class Replay:
                     same = False
                     break
         if not same:
+            got = []
+            for o in real_raw:
+                try:
+                    got.append((self.ids.get(id(o), '?'),) + tuple(host.proj(o)))
+                except Exception:  # noqa: BLE001
+                    got.append(('?', '?', '?'))
+            # Where a call through a FILTERED view puts a new item relative to items of other
+            # types is not prescribed: if every view still shows what the specification expects and
+            # the surviving items kept their order, this is drift (the replay stops), not a violation.
+            surv_spec = [sid for sid, _, _ in spec_raw if sid not in new_ids]
+            surv_real = [g[0] for g in got if g[0] != '?' and g[0] not in new_ids]
+            views_ok = surv_spec == surv_real and len(real_raw) == len(spec_raw)
+            if views_ok:
+                trip = {sid: (t, v) for sid, t, v in spec_raw}
+                for vname, (kind, tys) in host.views.items():
+                    exp = [trip[sid] for sid in ev['views'][vname]]
+                    gotv = [(g[1], g[2]) for g in got if g[1] in tys]
+                    if exp != gotv:
+                        views_ok = False
+            if views_ok and ev['view'] and host.views[ev['view']][0] != 'raw':
+                self.drift += 1
+                return False
             if 'views' in self.check:
-                got = []
-                for o in real_raw:
-                    try:
-                        got.append((self.ids.get(id(o), '?'),) + tuple(host.proj(o)))
-                    except Exception:  # noqa: BLE001
-                        got.append(('?', '?', '?'))
                 self.add(step, 'views', f'raw list is {got}, specification expects {[tuple(x) for x in spec_raw]}')
+            if 'frame' in self.check and surv_spec != surv_real:
+                self.add(step, 'frame', f'children other than the operated one changed: surviving items {surv_real}, '
+                                        f'specification keeps {surv_spec}')
             ok = False
         # ---- every view ---------------------------------------------------------
         if ok and ({'views', 'pyread'} & self.check):
@@ -363,8 +392,8 @@ class Replay:
                     self.add(step, 'text', f'printed {text!r}, Doc(raw) renders {exp_text!r}')
             if snap is not None and 'frame' in self.check and not want_exc:
                 self._frame(step, ev, snap)
-            if 'reparse' in self.check:
-                self._reparse(step, text, spec_raw)
+        if 'reparse' in self.check and not (want_exc and got_exc):
+            self._reparse(step, text, spec_raw if ok else None)
         if 'tree' in self.check:
             bad = tree.wellformed(self.file)
             if bad:
@@ -507,10 +536,21 @@ class Replay:
                 self.add(step, 'reparse', f'content differs after re-parse of {text!r}')
                 return
             p2 = host.locate(f2)
-            got = [host.proj(o) for o in host.view(p2, self.raw_name) if not isinstance(o, models.BlockComment)]
-            want = [(t, v) for _, t, v in spec_raw if t != 'Comment']
-            if got != want:
-                self.add(step, 'reparse', f're-parsed list is {got}, specification has {want} :: {text!r}')
+            # what every view says in memory must be what the same view says on the re-parsed text
+            for vname, (kind, tys) in host.views.items():
+                if kind == 'str':
+                    a, b = list(host.view(self.parent, vname)), list(host.view(p2, vname))
+                else:
+                    a = [host.proj(o) for o in host.view(self.parent, vname) if not isinstance(o, models.BlockComment)]
+                    b = [host.proj(o) for o in host.view(p2, vname) if not isinstance(o, models.BlockComment)]
+                if a != b:
+                    self.add(step, 'reparse', f'view {vname} says {a} in memory but {b} after re-parse of {text!r}')
+                    return
+            if spec_raw is not None:
+                got = [host.proj(o) for o in host.view(p2, self.raw_name) if not isinstance(o, models.BlockComment)]
+                want = [(t, v) for _, t, v in spec_raw if t != 'Comment']
+                if got != want:
+                    self.add(step, 'reparse', f're-parsed list is {got}, specification has {want} :: {text!r}')
         except Exception as e:  # noqa: BLE001
             self.add(step, 'reparse', f'{type(e).__name__}: {e}')
 
